@@ -2,6 +2,7 @@ package main
 
 import (
 	"go/token"
+	"go/types"
 	"strings"
 
 	"golang.org/x/tools/go/ssa"
@@ -192,25 +193,19 @@ func c01R2(h H) {
 			walk(st)
 			ok := okShape && len(consts) == 2 && consts[404] && consts[421]
 			r.Check(ok, "R2", "httpserver.WriteSiteNotFound/status-set", c.Pos(), "status written is one of the constants {404, 421}", describe(st))
-			// 421 only under ProtoMajor >= 2
-			g := false
-			for _, i := range ifs(w) {
-				v, flip := stripNot(i.Cond)
-				x, kind, cst, ok := intCmp(v)
-				if ok && !flip && readsField(x, "ProtoMajor") && kind == "gt" && cst == 1 {
-					// the phi edge from the true successor must carry 421
-					if ph, ok := st.(*ssa.Phi); ok {
-						for k, pred := range ph.Block().Preds {
-							n, isC := constInt(ph.Edges[k])
-							if !isC {
-								continue
-							}
-							viaTrue := pred == i.Block().Succs[0] || (pred == i.Block() && ph.Block() == i.Block().Succs[0])
-							if viaTrue && n == 421 {
-								g = true
-							}
-						}
-					}
+			// 421 exactly under ProtoMajor >= 2: every way the constant 421 reaches the status is guarded by
+			// ProtoMajor >= 2 and every way 404 reaches it by ProtoMajor < 2 (in whatever syntactic form)
+			leaves, _ := phiLeaves(st)
+			g := len(leaves) >= 2
+			isPM := func(v ssa.Value) bool { return readsField(v, "ProtoMajor") }
+			for _, lf := range leaves {
+				n, _ := constInt(lf.V)
+				gs := phiEdgeGuards(w, lf.Phi, lf.K)
+				switch n {
+				case 421:
+					g = g && guardsImplyAtLeast(gs, isPM, 2)
+				case 404:
+					g = g && guardsImplyAtMost(gs, isPM, 1)
 				}
 			}
 			r.Check(g, "R2", "httpserver.WriteSiteNotFound/421-iff-http2", c.Pos(), "421 is chosen exactly on the true edge of ProtoMajor >= 2")
@@ -387,22 +382,72 @@ func c01R4(h H) {
 		return
 	}
 	okv := commaOkOf(look)
-	// one byte per step: the remaining path φ is updated by slice [1:]
+	// one byte per step.  Two equivalent forms: the key is s[0] of a remaining-path φ that is updated by
+	// s = s[1:], or the key is s[i] of the loop-invariant path with i = φ(0, i+1).
 	stepOK := false
-	allInstrs(fn, func(in ssa.Instruction) {
-		if s, ok := in.(*ssa.Slice); ok && inLoop(s.Block()) {
-			if lo, ok := constInt(s.Low); ok && lo == 1 && s.High == nil {
-				if ph, ok := s.X.(*ssa.Phi); ok {
-					for _, e := range ph.Edges {
-						if e == s {
+	var idxPhi *ssa.Phi
+	var keyByte *ssa.Index
+	{
+		v := look.Index
+		for {
+			switch t := v.(type) {
+			case *ssa.Convert:
+				v = t.X
+				continue
+			case *ssa.ChangeType:
+				v = t.X
+				continue
+			}
+			break
+		}
+		if l, ok := v.(*ssa.Index); ok {
+			if _, isStr := l.X.Type().Underlying().(*types.Basic); isStr {
+				keyByte = l
+			}
+		}
+	}
+	if keyByte != nil {
+		if c, ok := constInt(keyByte.Index); ok && c == 0 {
+			if ph, ok := keyByte.X.(*ssa.Phi); ok {
+				for _, e := range ph.Edges {
+					if s, ok := e.(*ssa.Slice); ok && s.X == ph && s.High == nil && inLoop(s.Block()) {
+						if lo, ok := constInt(s.Low); ok && lo == 1 {
 							stepOK = true
 						}
 					}
 				}
 			}
+		} else if ph, ok := keyByte.Index.(*ssa.Phi); ok {
+			_, inv := keyByte.X.(*ssa.Parameter)
+			step, isStep := unitStep(ph)
+			zero := false
+			for _, e := range ph.Edges {
+				if c, ok := constInt(e); ok && c == 0 {
+					zero = true
+				}
+			}
+			if inv && isStep && step == 1 && zero && len(ph.Edges) == 2 {
+				stepOK = true
+				idxPhi = ph
+			}
 		}
-	})
-	r.Check(stepOK, "R4", "httpserver.(*vhostTrie).matchPath/one-byte-per-step", look.Pos(), "the remaining path shrinks by exactly one byte per iteration (s = s[1:])")
+	}
+	r.Check(stepOK, "R4", "httpserver.(*vhostTrie).matchPath/one-byte-per-step", look.Pos(), "the walk consumes exactly one byte of the path per iteration, starting at its first byte (s = s[1:] with key s[0], or key s[i] with i = 0, 1, 2, …)")
+	// the walk advances: the map consulted is the edges field of a node φ one of whose incoming values is the
+	// node just found (t = next), so that step k looks at the k-th node of the path and not always at the root
+	advances := false
+	if ua, ok := look.X.(*ssa.UnOp); ok {
+		if fa, ok := ua.X.(*ssa.FieldAddr); ok {
+			if ph, ok := fa.X.(*ssa.Phi); ok {
+				for _, e := range ph.Edges {
+					if ex, ok := e.(*ssa.Extract); ok && ex.Tuple == look && ex.Index == 0 {
+						advances = true
+					}
+				}
+			}
+		}
+	}
+	r.Check(advances, "R4", "httpserver.(*vhostTrie).matchPath/advances-to-found-node", look.Pos(), "each step consults the edges of the node found by the previous step")
 	// all φ leaves of the result are nil or the lookup's node
 	nodeOK := true
 	var leaves []string
@@ -472,6 +517,7 @@ func c01R4(h H) {
 						switch {
 						case v == okv && idx == 0 && !flip:
 						case isLenPositive(v):
+						case idxPhi != nil && isIndexBound(v, idxPhi):
 						default:
 							if x, nilWhenTrue, ok := nilCmp(v); ok && readsField(x, "site") && ((idx == 0) != nilWhenTrue) != flip {
 								siteGuard = true
@@ -486,6 +532,16 @@ func c01R4(h H) {
 				"the remembered node is replaced exactly when the edge exists and the node has a site (no additional condition such as 'nothing remembered yet')", guards...)
 		}
 	}
+}
+
+// isIndexBound: v is `i < len(x)` for the given induction variable (the continuation test of an index loop).
+func isIndexBound(v ssa.Value, i *ssa.Phi) bool {
+	b, ok := v.(*ssa.BinOp)
+	if !ok || b.Op != token.LSS || b.X != i {
+		return false
+	}
+	c, ok := b.Y.(*ssa.Call)
+	return ok && calleeName(&c.Call) == "builtin.len"
 }
 
 func isLenPositive(v ssa.Value) bool {
